@@ -37,7 +37,7 @@ fn bb(x: u64) -> Bitboard {
 }
 
 //@ obligation: C01.gen.knight_captures
-//@ property: C01 C10
+//@ property: C01
 //@ domain: complete
 //@ functions: chess/movegen/gen.rs::generate_knight_captures
 //@ timeout: 900
@@ -68,7 +68,7 @@ fn vk_c01_gen_knight_captures() {
 }
 
 //@ obligation: C01.gen.knight_quiets
-//@ property: C01 C10
+//@ property: C01
 //@ domain: complete
 //@ functions: chess/movegen/gen.rs::generate_knight_quiets
 //@ timeout: 900
@@ -99,7 +99,7 @@ fn vk_c01_gen_knight_quiets() {
 }
 
 //@ obligation: C01.gen.diagonal_slider_captures
-//@ property: C01 C10
+//@ property: C01
 //@ domain: complete
 //@ functions: chess/movegen/gen.rs::generate_diagonal_slider_captures
 //@ timeout: 900
@@ -130,7 +130,7 @@ fn vk_c01_gen_diagonal_slider_captures() {
 }
 
 //@ obligation: C01.gen.diagonal_slider_quiets
-//@ property: C01 C10
+//@ property: C01
 //@ domain: complete
 //@ functions: chess/movegen/gen.rs::generate_diagonal_slider_quiets
 //@ timeout: 900
@@ -161,7 +161,7 @@ fn vk_c01_gen_diagonal_slider_quiets() {
 }
 
 //@ obligation: C01.gen.orthogonal_slider_captures
-//@ property: C01 C10
+//@ property: C01
 //@ domain: complete
 //@ functions: chess/movegen/gen.rs::generate_orthogonal_slider_captures
 //@ timeout: 900
@@ -192,7 +192,7 @@ fn vk_c01_gen_orthogonal_slider_captures() {
 }
 
 //@ obligation: C01.gen.orthogonal_slider_quiets
-//@ property: C01 C10
+//@ property: C01
 //@ domain: complete
 //@ functions: chess/movegen/gen.rs::generate_orthogonal_slider_quiets
 //@ timeout: 900
@@ -299,7 +299,7 @@ fn can_push_once(player: Player, pawns: u64, all: u64, check_mask: u64, dp: u64,
 }
 
 //@ obligation: C01.gen.pawn_quiets
-//@ property: C01 C10
+//@ property: C01
 //@ domain: complete
 //@ functions: chess/movegen/gen.rs::generate_pawn_quiets
 //@ timeout: 1500
@@ -361,7 +361,7 @@ fn pawn_capture_dests(player: Player, a: u8, targets: u64, dp: u64) -> u64 {
 }
 
 //@ obligation: C01.gen.pawn_captures
-//@ property: C01 C10
+//@ property: C01
 //@ domain: complete
 //@ functions: chess/movegen/gen.rs::generate_pawn_captures
 //@ timeout: 2400
@@ -454,7 +454,7 @@ fn vk_c01_gen_pawn_captures() {
 }
 
 //@ obligation: C01.gen.king_captures
-//@ property: C01 C10
+//@ property: C01
 //@ domain: complete
 //@ functions: chess/movegen/gen.rs::generate_king_captures
 //@ timeout: 2400
@@ -471,7 +471,7 @@ fn vk_c01_gen_king_captures() {
 }
 
 //@ obligation: C01.gen.king_quiets
-//@ property: C01 C10
+//@ property: C01
 //@ domain: complete
 //@ functions: chess/movegen/gen.rs::generate_king_quiets
 //@ timeout: 2400
@@ -528,7 +528,7 @@ fn king_gen(captures: bool) {
 }
 
 //@ obligation: C01.gen.castles
-//@ property: C01 C10
+//@ property: C01
 //@ domain: complete
 //@ functions: chess/movegen/gen.rs::generate_castles, chess/movegen/gen.rs::generate_castle_move_for_side, chess/bitboard.rs::mod bitboards / fn castle_squares
 //@ timeout: 2400
@@ -584,7 +584,7 @@ fn vk_c01_gen_castles() {
 }
 
 //@ obligation: C01.canary.gen
-//@ property: C01 C10
+//@ property: C01
 //@ canary: true
 //@ timeout: 900
 #[kani::proof]
